@@ -878,6 +878,23 @@ def _deref_uses_with(root, name, facts):
     return out
 
 
+def timekind(ctx, R):
+    """Crash-only reading of the time normalisation: what the axis later reads through timeFn (the caller's datum) is a
+    datetime for date and time inputs - a raw date/time there makes the time scale raise TypeError."""
+    from . import c07
+    from ..report import Reporter
+
+    P = ctx.P
+    if "c07.normalise.results" not in ctx._cache:
+        c07.normalise(ctx, Reporter())
+    res = ctx._cache.get("c07.normalise.results", {})
+    f = P.func("timeline.Timeline.parse_items")
+    for cname in ("date", "time"):
+        got = res.get(cname)
+        ok = got is not None and got[1] is not None and got[1] != "T" and got[1].startswith("datetime.datetime")
+        R.check(ok, "C11.TIMEKIND", "%s|datum of class %s" % (f.qual, cname), where(f), "the datum the axis reads holds a datetime", "for a datum whose time is a %s the caller's dict (read by timeFn for the axis domain and the dot position) still holds %s after parse_items: the time scale subtracts datetimes and raises TypeError" % (cname, got[1] if got else None))
+
+
 def crash_pack(reach_fn, entries=None):
     """Rule running all source-level crash lints over reach_fn(ctx); the attribute typestate is checked for the
     entry methods named in `entries` (default: methods called `export`)."""
